@@ -4,7 +4,7 @@
    of an alternative is in text order (one version clause, one architecture list, any number of profile
    groups, in any order). *)
 From Coq Require Import List Ascii String Bool Arith NArith Lia.
-Require Import A1 D3 D4 D5 D6 D14 D9 D10 D12 D13 D15 D16r.
+Require Import A1 D3 D4 D5 D6 D14 D9 D10 D12 D13 D15 D16r D17r.
 Import ListNotations.
 
 (* every field of the grammar, with blanks anywhere between tokens: leading blanks w0; relations
@@ -39,6 +39,25 @@ Theorem C04_reject_second_archs : forall name q cl w y,
   parse (name ++ qual_text q ++ clauses_text cl ++ w ++ ch 91 :: y) = Err.
 Proof. exact D16r.C04_reject_second_archs. Qed.
 Print Assumptions C04_reject_second_version.
+(* two names without a separator, an unknown operator, a version clause that is never closed *)
+Theorem C04_reject_two_names : forall name q cl, name <> [] -> forallb namec name = true -> eqc (peek name) 36 = false ->
+  (match q with None => True | Some a => forallb mac (arch_string a) = true /\ parse_arch (arch_string a) = a end) ->
+  clauses_ok (base name q) cl -> cl <> [] -> forall w c x, all_ws w -> is_ws c = false ->
+  eqc c 44 || eqc c 124 || eqc c 0 = false -> eqc c 40 = false -> eqc c 91 = false -> eqc c 60 = false ->
+  parse (name ++ qual_text q ++ clauses_text cl ++ w ++ c :: x) = Err.
+Proof. exact D17r.C04_reject_two_names. Qed.
+Theorem C04_reject_unknown_operator : forall name q cl, name <> [] -> forallb namec name = true -> eqc (peek name) 36 = false ->
+  (match q with None => True | Some a => forallb mac (arch_string a) = true /\ parse_arch (arch_string a) = a end) ->
+  clauses_ok (base name q) cl -> cl <> [] -> forall w rest, all_ws w -> p_ver (result name q cl) = None ->
+  parse_operator rest = Err -> parse (name ++ qual_text q ++ clauses_text cl ++ w ++ ch 40 :: rest) = Err.
+Proof. exact D17r.C04_reject_unknown_operator. Qed.
+Theorem C04_reject_unterminated_version : forall name q cl, name <> [] -> forallb namec name = true -> eqc (peek name) 36 = false ->
+  (match q with None => True | Some a => forallb mac (arch_string a) = true /\ parse_arch (arch_string a) = a end) ->
+  clauses_ok (base name q) cl -> cl <> [] -> forall w op rest, all_ws w -> p_ver (result name q cl) = None ->
+  In op ops -> opnext rest = true -> forallb numc rest = true ->
+  parse (name ++ qual_text q ++ clauses_text cl ++ w ++ ch 40 :: op ++ rest) = Err.
+Proof. exact D17r.C04_reject_unterminated_version. Qed.
+Print Assumptions C04_reject_unterminated_version.
 
 (* the other malformed classes as local facts, valid in every context: each scanner fails at the point of
    the defect (the tie's corruption stream exercises them through Parse) *)
